@@ -1,4 +1,5 @@
 import RocflModel.Stage
+import RocflModel.Diff
 /-
   Driver side of the `history` protocol: runs `Rocfl.Stage` / `Rocfl.Inventory` model functions on the
   request lines and prints canonical responses.
@@ -71,24 +72,6 @@ def parseCPath (s : Str) : Option CPath :=
 
 def showDigests (ds : List Digest) : String := "|".intercalate (ds.map String.ofList)
 
-/-- last version (walking back from `vn`) in which `p` got its current digest -/
-def lastUpdate (inv : Inv) (vn : Nat) (p : LPath) : Nat :=
-  match inv.getVersion vn with
-  | none => vn
-  | some v =>
-    match v.lookup p with
-    | none => vn
-    | some d =>
-      let rec go (fuel n : Nat) : Nat :=
-        match fuel with
-        | 0 => n
-        | fuel + 1 =>
-          if n ≤ 1 then n
-          else match inv.getVersion (n - 1) with
-            | some pv => if pv.lookup p == some d then go fuel (n - 1) else n
-            | none => n
-      go vn vn
-
 def sortStr (l : List String) : List String := (l.toArray.qsort (· < ·)).toList
 
 def showView (inv : Inv) (vn : Nat) : String :=
@@ -96,14 +79,37 @@ def showView (inv : Inv) (vn : Nat) : String :=
   | none => "err:notFound"
   | some v =>
     let rows := v.state.map (fun e =>
-      let cps := match inv.contentPathsForDigest e.2 (lastUpdate inv vn e.1) (some e.1) with
+      let cps := match inv.contentPathsForDigest e.2 (inv.lastUpdate vn e.1) (some e.1) with
         | .ok cps => joinHex (cps.map inv.showCPath) "|"
         | .error _ => "!"
-      s!"{encodeArg e.1}:{String.ofList e.2}:{cps}:v{lastUpdate inv vn e.1}")
+      s!"{encodeArg e.1}:{String.ofList e.2}:{cps}:v{inv.lastUpdate vn e.1}")
     "ok " ++ " ".intercalate (sortStr rows)
 
 def showManifest (inv : Inv) (m : List (CPath × Digest)) : String :=
   "ok " ++ " ".intercalate (sortStr (m.map (fun e => s!"{encodeArg (inv.showCPath e.1)}:{String.ofList e.2}")))
+
+def showDiff : Diff → String
+  | .added p => "A:" ++ encodeArg p
+  | .modified p => "M:" ++ encodeArg p
+  | .deleted p => "D:" ++ encodeArg p
+  | .renamed o r => "R:" ++ ",".intercalate (o.map encodeArg) ++ ">" ++ ",".intercalate (r.map encodeArg)
+
+def showDiffs (r : Except Err (List Diff)) : String :=
+  match r with
+  | .ok ds => "ok " ++ " ".intercalate (sortStr (ds.map showDiff))
+  | .error e => "err:" ++ errName e
+
+def optHex (o : Option Str) : String := match o with | some s => "s" ++ encodeArg s | none => "n"
+
+def showLog (inv : Inv) : String :=
+  "ok " ++ " ".intercalate ((List.range inv.versions.length).map (fun i =>
+    match inv.versions[i]? with
+    | none => "?"
+    | some v =>
+      let (u, a) := match v.vmeta.user with
+        | some (n, a) => (n, a)
+        | none => (none, none)
+      s!"v{i + 1}|{optHex u}|{optHex a}|{optHex v.vmeta.message}|{String.ofList v.vmeta.created}"))
 
 def parseMeta (user addr msg created : String) : Meta :=
   { created := created.toList, message := optArg msg,
@@ -219,6 +225,26 @@ def histStep (st : HState) (op : String) (a : List String) : HState × String :=
       let r := if v == "S" then getStagedObjectFile st.repo (arg id) p else getObjectFile st.repo (arg id) (parseVer v) p
       match r with
       | .ok ds => (st, "ok " ++ showDigests ds)
+      | .error e => (st, "err:" ++ errName e)
+  | "diff", [id, l, rt] =>
+    match AL.get st.repo.main (arg id) with
+    | none => (st, "err:notFound")
+    | some o => (st, showDiffs (o.inv.diffVersions (parseVer l) ((parseVer rt).getD 0)))
+  | "diffstaged", [id] =>
+    match AL.get st.repo.staged (arg id) with
+    | none => (st, "ok ")
+    | some o => (st, showDiffs (o.inv.diffVersions none o.inv.head.number))
+  | "log", [id] =>
+    match AL.get st.repo.main (arg id) with
+    | none => (st, "err:notFound")
+    | some o => (st, showLog o.inv)
+  | "flog", [id, path] =>
+    match AL.get st.repo.main (arg id), parsePath (arg path) with
+    | none, _ => (st, "err:notFound")
+    | _, .error e => (st, "err:" ++ errName e)
+    | some o, .ok p =>
+      match o.inv.fileVersions p with
+      | .ok vs => (st, "ok " ++ ",".intercalate (vs.map (fun n => s!"v{n}")))
       | .error e => (st, "err:" ++ errName e)
   | "manifest", [id] =>
     match AL.get st.repo.main (arg id) with
